@@ -442,11 +442,17 @@ def run_c12(case, fail):
                 inc.partial_fit(X[miss][:3] if miss.any() else extra_rows(rs), np.full(min(3, int(miss.sum())) if miss.any() else 3, ml, dtype=y2.dtype))
                 if not np.allclose(pred(inc, Xq), p_before, atol=1e-8, equal_nan=True):
                     fail("C12.partial_fit_on_unlabeled_batch_changes_the_model", "a partial_fit batch without any label changed the predictions")
-                only_second = mk()
-                only_second.partial_fit(X[lab_idx[half:]], y2[lab_idx[half:]])
-                if len(lab_idx) >= 6 and np.allclose(p_before, pred(only_second, Xq), atol=1e-12, equal_nan=True) and \
-                        not np.allclose(pred(mk().partial_fit(X[lab_idx[:half]], y2[lab_idx[:half]]), Xq), p_before, atol=1e-12, equal_nan=True):
-                    fail("C12.partial_fit_forgets_earlier_batches", "after two labeled batches the model equals a model that saw only the second one")
+                # reference: the wrapped scikit-learn estimator itself, trained incrementally on the same two labeled batches
+                from sklearn.base import clone as _clone
+                raw = _clone(inc.estimator)
+                kw1 = {} if case.get("reg") else {"classes": np.array([0, 1, 2])}
+                raw.partial_fit(X[lab_idx[:half]], y2[lab_idx[:half]].astype(float if case.get("reg") else int), **kw1)
+                raw.partial_fit(X[lab_idx[half:]], y2[lab_idx[half:]].astype(float if case.get("reg") else int))
+                p_raw = raw.predict(Xq) if case.get("reg") else raw.predict_proba(Xq)
+                if np.shape(p_raw) == np.shape(p_before) and np.all(np.isfinite(p_raw)) and getattr(inc, "is_fitted_", True) \
+                        and not np.allclose(p_before, p_raw, atol=1e-8, equal_nan=True):
+                    fail("C12.partial_fit_forgets_earlier_batches", "after two labeled batches the wrapper differs from the wrapped estimator trained "
+                                                                    "incrementally on the same batches")
         except Exception as e:
             fail("C12.partial_fit_raised", f"{type(e).__name__}: {str(e)[:120]}")
     # revealing the same labels in a different order / moving unlabeled rows around
